@@ -206,3 +206,14 @@ func VerifC06_RefreshedEnvironment() {
 		zzverif.Cover("membership-flipped")
 	}
 }
+
+// VerifC06_SprintActions: the scenario of VerifC03_SprintActions — one
+// contact-changing action of eleven kinds (name, language, field, static
+// groups, URN, status, timezone) before a wait and one after it, a contact
+// with arbitrary starting name, field, status and possibly stale stored
+// membership, manual or msg trigger, a msg resume — with this property's
+// check after each sprint: the contact is in the query based group exactly
+// when it is active and the query matches, and a non-active contact is in no
+// static group.
+// cover: first-sprint, second-sprint, blocked-contact
+func VerifC06_SprintActions() { verifSprintActions(true) }
